@@ -546,11 +546,11 @@ func ratOfFloat(s string) (string, bool) {
 	if s == "NaN" || strings.Contains(s, "Inf") {
 		return "", false
 	}
-	f, ok := new(big.Float).SetPrec(200).SetString(s)
-	if !ok {
+	f, err := strconv.ParseFloat(s, 64)
+	if err != nil {
 		return "", false
 	}
-	r, _ := f.Rat(nil)
+	r := new(big.Rat).SetFloat64(f) // the exact value of the float64
 	if r == nil {
 		return "", false
 	}
@@ -606,6 +606,12 @@ func (p *pinner) value(t types.Type, term string, d *RV) {
 			p.add("(not %s)", term)
 		}
 	case "f":
+		// Floating-point values are pinned in the entry state only (exactly).  Observed floating-point results are
+		// not pinned: the contracts treat float arithmetic as real arithmetic, so a rounded result could contradict a
+		// postcondition that the code in fact satisfies up to rounding.
+		if p.post {
+			return
+		}
 		if r, ok := ratOfFloat(d.N); ok {
 			p.add("(= %s %s)", term, r)
 		}
